@@ -3,7 +3,7 @@ import ast, re
 from sa import generic
 from sa.degrees import DegContext, CDeg, PyDeg, Func
 from sa.cfront import CProgram
-from sa.kernels import KernelFacts, kernel_name
+from sa.kernels import KernelFacts, kernel_name, phi_reads
 from sa.srcmodel import own_nodes, dotted, positional_params, func_params
 from sa.report import AnalysisError
 
@@ -128,10 +128,18 @@ def run(rep, prog, tier):
         for k in range(1, D + 1):
             cf = cprog.func(kernel_name(D, k))
 
-            def ob(field, ok, detail, line, cf=cf, D=D, k=k):
-                if field.endswith('.linearity'):
-                    rep.ob('R-INDEP', field.split('.')[0] + '[%dD,axis %d]' % (D, k), ok, detail, cf.rel, line, what='coefficients independent of the density')
-            KernelFacts(cf, D, k, ob).check()
+            reads = phi_reads(cf, D)
+            rep.ob('R-INDEP', '%s[%dD,axis %d]' % (cf.name, D, k), len(reads) == 1,
+                   'phi is read at lines %s (only the right-hand side r = phi/dt may depend on it)' % reads, cf.rel, cf.line, what='coefficients independent of the density')
+    # superposition: degree 1 is necessary but not sufficient (max(phi, 0) has degree 1); every operation applied to the
+    # density and to theta0 must be linear in the pair (taint classes U/L/N, interprocedural)
+    from sa.linear import rule_lin
+    from sa.srcmodel import func_params as _fp
+    for modname, q in entries2:
+        fn = prog.func(modname, q)
+        t = {p_ for p_ in _fp(fn) if p_.startswith('phi')} | ({'theta0'} if 'theta0' in _fp(fn) else set())
+        if t:
+            rule_lin(rep, prog.mod(modname), fn, t, prog=prog, what='the result is a linear function of (density, theta0)')
     # ensure_1arg_func preserves the value
     mf = prog.func('dadi.Misc', 'ensure_1arg_func')
     t = ast.unparse(mf)
@@ -141,3 +149,4 @@ def run(rep, prog, tier):
     rep.floor('R-DEG(G1)', 40)
     rep.floor('R-DEG(theta)', 50)
     rep.floor('R-INDEP', 15)
+    rep.floor('R-LIN', 30)
